@@ -263,3 +263,14 @@ pub fn hs_new<T>() -> HashSet<T, RandomState> {
 /// zero, so `Weak::upgrade` keeps failing exactly when it should; what is lost are the side
 /// effects of the shared value's destructor.  Only for harnesses that do not depend on those.
 pub fn arc_drop_slow_leak<T: ?Sized, A: Allocator>(_this: &mut std::sync::Arc<T, A>) {}
+
+/// Stub for `<Vec<T> as Drop>::drop`: the elements are leaked (their destructors do not run); the
+/// buffer itself is still freed by `RawVec`'s destructor.  Dropping a slice of values whose enum
+/// discriminant CBMC no longer sees as constant (values that travelled through nested enums / unions)
+/// otherwise unrolls the element drop glue `unwind` times at every such drop site.  Only for
+/// harnesses whose property does not depend on the destructor of a value that is still inside a
+/// dropped vector (the harness tree leaks its fixtures anyway).
+pub fn vec_drop_leak<T, A: Allocator>(_this: &mut Vec<T, A>) {}
+
+/// Same for `<VecDeque<T> as Drop>::drop`.
+pub fn vec_deque_drop_leak<T, A: Allocator>(_this: &mut std::collections::VecDeque<T, A>) {}
